@@ -50,7 +50,8 @@ def pick_cfg(rng, i):
     if rng.random() < 0.05:
         maxb = rng.choice([1, 2, 3, 10])        # outside the budget antecedent: clauses must stay silent
     fec = 1 if rng.random() < 0.2 else 0
-    return dict(fs=fs, ch=ch, app=app, cx=cx, br=br, vbr=vbr, dtx=dtx, dq=dq, maxb=maxb, fec=fec)
+    fch = rng.choice([0, 0, 0, 1, 2]) if ch == 2 else 0
+    return dict(fs=fs, ch=ch, app=app, cx=cx, br=br, vbr=vbr, dtx=dtx, dq=dq, maxb=maxb, fec=fec, fch=fch)
 
 
 def sched_line(c, sched, sseed):
@@ -58,10 +59,9 @@ def sched_line(c, sched, sseed):
     segs = []
     for k, n in sched:
         ms = n if n > 0 else ms_pkt
-        # the harness takes whole milliseconds; one 2.5 ms packet becomes 5 ms (two packets)
-        segs.append("%s%d" % (k, max(1, int(round(ms + 0.4999)))))
-    return "X %d %d %d %d %d %d %d %d %d %d %d | %s" % (c["fs"], c["ch"], c["app"], c["cx"], c["br"], c["vbr"], c["dtx"],
-                                                       c["dq"], c["maxb"], c["fec"], sseed, " ".join(segs))
+        segs.append("%s%g" % (k, ms))
+    return "X %d %d %d %d %d %d %d %d %d %d %d %d | %s" % (c["fs"], c["ch"], c["app"], c["cx"], c["br"], c["vbr"], c["dtx"],
+                                                          c["dq"], c["maxb"], c["fec"], c.get("fch", 0), sseed, " ".join(segs))
 
 
 def hand_schedules():
@@ -110,6 +110,26 @@ def run(ctx):
                 lines.append(sched_line(c, [("a", 1000), ("s", 2500), ("a", 500)], rng.randrange(1, 1 << 30)))
                 c = dict(c); c["dtx"] = 0
                 lines.append(sched_line(c, [("a", 400), ("s", 1500)], rng.randrange(1, 1 << 30)))
+    # onsets that fall inside a packet (gap ends a fraction of a packet after a boundary), on encoders whose stream is
+    # mono although the input is stereo (low bitrate or forced mono) and on plain mono/stereo ones
+    for dq in DURS:
+        pk = dq / 2.0
+        for frac in (0.3, 0.55, 0.7, 0.85):
+            for (ch, br, fch) in ((2, 12000, 0), (2, 32000, 1), (1, 24000, 0), (2, 64000, 0)):
+                c = dict(fs=rng.choice([16000, 24000, 48000]), ch=ch, app=rng.choice(APPS), cx=rng.choice([7, 9, 10]),
+                         br=max(br, (2 * 96000 + dq - 1) // dq), vbr=1, dtx=1, dq=dq, maxb=1500, fec=0, fch=fch)
+                gap = (int(420 / pk) + 1) * pk + frac * pk
+                lines.append(sched_line(c, [("a", 16 * max(pk, 20)), ("s", gap), ("a", 8 * max(pk, 20))], rng.randrange(1, 1 << 30)))
+    # DTX disabled at exactly three bytes per packet (<= 20 ms) / 2400 b/s (longer), and small buffers at their limit
+    for dq in DURS:
+        nfr = max(1, dq // 40)
+        brs = [-(-48000 // dq), -(-48000 // dq) + 1] if dq <= 40 else [4800, 4801]
+        for br in brs:
+            for vbr in (0, 1, 2):
+                for maxb in (1500, max(3, -(-600 * dq // 2000)), 3 * nfr + 40):
+                    c = dict(fs=rng.choice(FS), ch=rng.choice([1, 2]), app=rng.choice(APPS), cx=rng.choice(CXS), br=br, vbr=vbr, dtx=0,
+                             dq=dq, maxb=maxb, fec=rng.choice([0, 1]))
+                    lines.append(sched_line(c, [("a", 300), ("s", 300), ("n", 200), ("a", 200)], rng.randrange(1, 1 << 30)))
     # the execution that reaches finding F4 (speech layer overruns a tight buffer with FEC on, DTX off)
     lines.append("X 8000 2 2048 5 256000 1 0 120 120 1 960305695 | a1000 n180 s400")
     rng.shuffle(lines)
